@@ -25,7 +25,7 @@ NSHARDS = {"quick": 16, "thorough": 16}
 THRESHOLDS = {"quick": {**{f"c17:opts:{a}{b}{c}": 200 for a in "TF" for b in "TF" for c in "TF"}, "c17:images": 3000,
                         "c17:one-cell-solution": 50, "c17:two-cell-solution": 50, "c17:isolated-cells-present": 200,
                         "c17:isolated-pixel-removed": 200, "c17:dataset-items": 300, "c17:batches": 60, "c17:batch-none": 10,
-                        "c17:batch-repeats": 10, "c17:from-generators": 300, "c17:items-overwritten-by-caller": 60, "c17:oblong": 40}}
+                        "c17:batch-repeats": 10, "c17:from-generators": 300, "c17:subclass-instances": 100, "c17:items-overwritten-by-caller": 60, "c17:oblong": 40}}
 THRESHOLDS["thorough"] = dict(THRESHOLDS["quick"])
 ANCHORS = ["maze_dataset.dataset.rasterized:process_maze_rasterized_input_target", "maze_dataset.dataset.rasterized:_extend_pixels",
            "maze_dataset.maze.lattice_maze:_remove_isolated_cells", "maze_dataset.dataset.rasterized:RasterizedMazeDataset.__getitem__",
@@ -102,8 +102,11 @@ def run(ctx):
         mode = j % 4
         e = s if mode == 0 else (gr.adj[s][0] if (mode == 1 and gr.adj[s]) else comp[int(rng.integers(len(comp)))])
         sol = gr.shortest_path(s, e, rng)
-        maze = lib.solved(cl, sol)
-        case = dict(kind="harness", family=fam, grid_n=g, shape=(g, g2), cl=cl, solution=sol)
+        if j % 5 == 2:
+            maze = lib.solved_subclass(cl, sol); ctx.tally("c17:subclass-instances")
+        else:
+            maze = lib.solved(cl, sol)
+        case = dict(kind="harness", family=fam, grid_n=g, shape=(g, g2), cl=cl, solution=sol, subclass=(j % 5 == 2))
         # the 8 option combinations in a per-case order (the same maze object is rasterized 8 times)
         order = [OPTS[int(i)] for i in rng.permutation(8)] if j % 2 else OPTS
         check_maze(ctx, maze, cl, sol, case, order)
